@@ -22,6 +22,7 @@
 #include <signal.h>
 #include <sys/time.h>
 #include <unistd.h>
+#include <errno.h>
 
 static volatile sig_atomic_t ticks = 0;
 static volatile sig_atomic_t want_suspend = 0;
@@ -87,6 +88,9 @@ static void build_registry(void) {
         if (!janet_checktype(kv->key, JANET_SYMBOL)) continue;
         const char *name = (const char *) janet_unwrap_symbol(kv->key);
         if (denied(name)) continue;
+        /* C functions only: bytecode functions of the core image (repl, debugger, ...) reach stdin / stdout through
+         * references inside the image that this table cannot filter */
+        if (!janet_checktype(kv->value, JANET_CFUNCTION)) continue;
         janet_table_put(reg, kv->key, kv->value);
         janet_table_put(rreg, kv->value, kv->key);
     }
@@ -444,6 +448,7 @@ int main(int argc, char **argv) {
     struct sigaction sa;
     memset(&sa, 0, sizeof sa);
     sa.sa_handler = on_tick;
+    sa.sa_flags = SA_RESTART;   /* the tick must not make getline() on stdin fail with EINTR */
     sigaction(SIGALRM, &sa, NULL);
     struct itimerval it;
     it.it_interval.tv_sec = 0; it.it_interval.tv_usec = 5000;
@@ -451,7 +456,13 @@ int main(int argc, char **argv) {
     setitimer(ITIMER_REAL, &it, NULL);
 
     char *line = NULL; size_t cap = 0; ssize_t n;
-    while ((n = getline(&line, &cap, stdin)) > 0) {
+    for (;;) {
+        errno = 0;
+        n = getline(&line, &cap, stdin);
+        if (n <= 0) {
+            if (errno == EINTR) { clearerr(stdin); continue; }
+            break;
+        }
         while (n > 0 && (line[n - 1] == '\n' || line[n - 1] == '\r' || line[n - 1] == ' ')) line[--n] = 0;
         if (n < 1) { printf("bad-op\n"); fflush(stdout); continue; }
         char op = line[0];
